@@ -318,6 +318,12 @@ class Report:
             self.cov["samples"] = [{"note": "no correspondence cases were run (build or translation failed first)"}]
         if extra:
             self.cov.update(extra)
+        # schema: `exhaustive` is a boolean about the WHOLE input space; completely enumerated finite sub-spaces are listed separately
+        if not isinstance(self.cov.get("exhaustive", False), bool):
+            self.cov["exhaustive_subspaces"] = self.cov.pop("exhaustive")
+        for k in ("evaluations", "distinct_nontrivial", "obligations", "discharged", "traces_validated_against_impl"):
+            if k in self.cov:
+                self.cov[k] = int(self.cov[k])
         ev = {"property_id": self.prop, "tier": self.tier, "seed": self.seed, "level": level,
               "coverage": self.cov, "assumptions": assumptions, "wall_s": round(time.time() - self.t0, 2),
               "violations": len(lines), "known_findings_confirmed": sorted(self.known_hits)}
